@@ -17,6 +17,7 @@ import re
 from vlib import core
 from vlib import gen
 from props import _c01_trace as T
+from props import _c01_gen
 
 BINS = [b for b in ["h_commit", "h_chan"] if os.path.exists(os.path.join(core.HARNESS, "src", "bin", b + ".rs"))]
 LEVEL = "proof"
@@ -169,6 +170,55 @@ def ref_ncs(ct, local, funder, v, s, addl, fr, spike, dust, hs):
     return (holder - fee * 1000, cp) if funder else (holder, cp - fee * 1000)
 
 
+def ref_keeps_output(ct, local, funder, v, s, fr, dust, hs, a):
+    """After the holder adds an outbound HTLC of `a` msat: does the commitment of side `local` (broadcaster
+    dust limit `dust`) still have an output (BOLT 3 trimming)? None if the balances cannot carry it."""
+    V = v * 1000
+    hs2 = list(hs) + [(True, a)]
+    O = sum(x for (o, x) in hs2 if o)
+    I = sum(x for (o, x) in hs2 if not o)
+    if s > V or O > s or I > V - s:
+        return None
+    w = ref_weights(ct)
+    nd = sum(1 for (o, x) in hs2 if not (x // 1000 < dust + (0 if ct in (1, 2) else fr * (w["timeout"] if o == local else w["success"]) // 1000)))
+    if nd > 0 or ct == 2:
+        return True
+    anchors = 660000 if ct == 1 else 0
+    fee = fr * w["base"] // 1000 * 1000
+    holder, cp = s - O, V - s - I
+    if funder:
+        holder = max(0, max(0, holder - anchors) - fee)
+    else:
+        cp = max(0, max(0, cp - anchors) - fee)
+    return holder >= dust * 1000 or cp >= dust * 1000
+
+
+def judge_ab(case, line):
+    """Contract of the reported send limits on the implementation's answer: every amount in [minimum, limit]
+    leaves BOTH commitments with an output (checked at the ends and at the dust thresholds of both sides)."""
+    (ct, funder, v, s, fr, lim, maxdust, cc, hs) = case
+    if line == "PANIC" or (ct == 2 and fr != 0):
+        return None
+    r = [int(x) for x in line.split()]
+    limit, minimum = r[2], r[3]
+    if limit < minimum or limit == 0:
+        return None
+    hd, cd = cc[0], cc[2]
+    hs_ = [(bool(o), a) for (o, a) in hs]
+    if ref_ncs(ct, True, bool(funder), v, s, 0, fr, False, hd, hs_) is None or ref_ncs(ct, False, bool(funder), v, s, 0, fr, False, cd, hs_) is None:
+        return None
+    w = ref_weights(ct)
+    tl = (hd + (0 if ct in (1, 2) else fr * w["timeout"] // 1000)) * 1000
+    tr = (cd + (0 if ct in (1, 2) else fr * w["success"] // 1000)) * 1000
+    cands = sorted(set(a for a in (minimum, limit, tl - 1, tl, tr - 1, tr, (minimum + limit) // 2) if max(1, minimum) <= a <= limit))
+    for a in cands:
+        for (local, dust) in ((True, hd), (False, cd)):
+            k = ref_keeps_output(ct, local, bool(funder), v, s, fr, dust, hs_, a)
+            if k is False:
+                return "limits [%d, %d] admit an HTLC of %d msat that leaves the %s commitment (dust limit %d) without any output" % (minimum, limit, a, "holder's" if local else "counterparty's", dust)
+    return None
+
+
 # ------------------------------------------------------------------ case generation
 def dust_thresholds(ct, fr, dust):
     return sorted(set([dust + ref_htlc_tx_fee(ct, fr, True), dust + ref_htlc_tx_fee(ct, fr, False), dust]))
@@ -307,10 +357,33 @@ def ncs_cases(rng, n):
     return cases
 
 
+def tiny_like(rng):
+    """Tiny zero-reserve channels with different dust limits: where the 'at least one output' guards bite."""
+    ct = rng.choice([1, 1, 0, 2])
+    fr = 0 if ct == 2 else rng.choice([253, 253, 500, 1000])
+    funder = rng.below(2)
+    hd = rng.choice([354, 546, 1000, 2000])
+    cd = rng.choice([354, 546, 1000, 2000])
+    anch = 660 if ct == 1 else 0
+    w = ref_weights(ct)
+    fee = fr * w["base"] // 1000
+    v = anch + fee + rng.choice([hd, cd, hd + cd, max(hd, cd) + rng.below(900), 2 * max(hd, cd) + rng.below(500), rng.range(400, 5000)])
+    V = v * 1000
+    own = rng.choice([V, V, V - rng.below(min(V, 600000) + 1), V // 2, rng.below(V + 1)])
+    s = own if funder else V - own
+    s = max(0, min(V, s))
+    hs = []
+    if rng.chance(1, 4):
+        a = rng.choice([1000, 100000, 353000, 545000])
+        if a <= s:
+            hs.append((1, a))
+    return ct, fr, funder, v, s, hd, cd, 0, 0, hs
+
+
 def ab_cases(rng, n):
     cases = []
-    for _ in range(n):
-        ct, fr, funder, v, s, hd, cd, res_h, res_c, hs = chan_like(rng)
+    for i in range(n):
+        ct, fr, funder, v, s, hd, cd, res_h, res_c, hs = tiny_like(rng) if i % 3 == 0 else chan_like(rng)
         lim = rng.choice([-1, -1, 253, 1000, fr])
         maxdust = rng.choice([5000000, 50000000, 5000 * 1000 * 1000, 0, 1000000])
         htlc_min = rng.choice([1, 1, 1000, 0, 354000])
@@ -483,6 +556,15 @@ def functional(ctx, model_ok):
                           "case_line": "ncs %d %d %d %d %d %d %d %d %d %d %d %s" % (ct, local, funder, v, s_, addl, fr, spike, lim, dust, len(hs), " ".join("%d %d" % h for h in hs)),
                           "impl": l})
     ctx.coverage["ncs_ok_cases"] = nok
+    nab = 0
+    for c, l in zip(abs_, impl_ab):
+        why = judge_ab(c, l)
+        nab += 1
+        if why:
+            (ct, funder, v, s_, fr, lim, maxdust, cc, hs) = c
+            fails.append({"kind": "get_available_balances breaks the 'commitment keeps an output' contract", "why": why,
+                          "case_line": "ab %d %d %d %d %d %d %d %s %d %s" % (ct, funder, v, s_, fr, lim, maxdust, " ".join(str(x) for x in cc), len(hs), " ".join("%d %d" % h for h in hs)),
+                          "impl": l})
     # ---- model vs implementation
     dis = []
     if model_ok:
@@ -570,6 +652,7 @@ def broken_placeholder(proved, dis, mdis=None):
 KEY_HCORDER = "C01:holding-cell-add-before-fulfill-reserve-close"
 KEY_DBGOVERDRAWN = "C01:debug-assert-overdrawn-on-concurrent-adds"
 KEY_CLOSEDUST = "C01:coop-close-asymmetric-dust-signature-mismatch"
+KEY_CLOSEMIN = "C01:coop-close-fundee-min-exceeds-funder-balance"
 KEY_COOP = "C01:coop-close-fee-exceeds-funder-balance"
 KEY_LIMIT = "C01:limit-not-accepted-by-funder-peer"
 
@@ -653,6 +736,13 @@ def classify_known(rec, f):
                 for v_ in (rg["bal_F"] - fee, rg["bal_N"]):
                     if lo < v_ <= hi:
                         return KEY_CLOSEDUST
+    if f["judge"] in ("b:no-error", "b:no-force-close") and "Peer sent a bogus closing_signed" in f["why"] and "was not in their desired range" in f["why"]:
+        # (6) the NON-funder's minimum closing fee exceeds the funder's balance (while the funder's maximum does
+        # not rule it out): the non-funder counter-proposes the funder's whole balance together with the inverted
+        # range [its minimum, funder balance], which the funder rejects as bogus and force-closes
+        rg = T.closing_ranges(rec, steps, f["step"] - 1)
+        if rg is not None and rg["F_min"] <= rg["bal_F"] < rg["N_min"] <= rg["F_max"]:
+            return KEY_CLOSEMIN
     if f["judge"] == "no-panic" and "some channel balance has been overdrawn" in f["why"] and "channel_state.rs" in f["why"] and steps:
         # (4) ChannelDetails::from_channel's debug_assert while BOTH sides have HTLC adds the other has not
         # yet acknowledged (concurrent adds whose total fee the funder cannot pay)
@@ -696,7 +786,7 @@ def trace_layer(ctx):
     if "h_chan" not in BINS:
         return []
     quick = ctx.tier == "quick"
-    n, nl = (480, 60) if quick else (3000, 150)
+    n, nl = (640, 60) if quick else (3200, 150)
     keep = 32 if quick else 200
     lines = T.gen_schedules(ctx.rng.fork("trace"), n, nl)
     tot = {}
@@ -740,6 +830,12 @@ def trace_layer(ctx):
 
 def generate(ctx):
     metas, errors = gen.regen(ctx, ["TxBuilder", "ChanUtilsFees", "Consts"])
+    meta2, err2 = _c01_gen.generate(ctx)
+    if err2:
+        errors = dict(errors)
+        errors["C01Closing"] = err2
+    else:
+        ctx.gen_meta = list(getattr(ctx, "gen_meta", [])) + [dict(m, module="C01Closing") for m in meta2]
     return metas, errors
 
 
@@ -759,7 +855,7 @@ def run(ctx):
     proved = False
     okm = False
     if gen_err is None:
-        okm, outm = ctx.coq_make(["Model/CommitAmounts.vo"])
+        okm, outm = ctx.coq_make(["Model/CommitAmounts.vo", "Model/CoopClose.vo"])
         if not okm:
             ctx.log("model build failed:", outm[-1500:])
         proved = ctx.prove("C01")
@@ -803,6 +899,7 @@ def run(ctx):
     if mdis:
         broken.append({"correspondence": "h_chan real traces vs Model/ChanSys.v (per-step states and commitments)", "first_disagreements": mdis[:3], "n": len(mdis)})
     reported = set()
+    found_any = False
     for (line, rec, f) in tfails:
         key = classify_known(rec, f)
         tag = key or f["judge"]
@@ -815,6 +912,8 @@ def run(ctx):
                 small = T.shrink(ctx, ref_commit, line, f["judge"])
             except Exception as ex:  # shrinking is best effort
                 ctx.log("shrink failed:", repr(ex))
+        if key is None:
+            found_any = True
         ctx.violation("C01 fails on real nodes (%s): %s" % (f["judge"], f["why"][:500]),
                       {"broken": broken_placeholder(proved, dis, mdis), "failing_input": {"schedule": small, "original_schedule": line, "step": f["step"], "judge": f["judge"], "why": f["why"]},
                        "replay_kind": "h_chan", "replay_cmd": "%s <file with the schedule line> <out>" % ctx.bin_path("h_chan")}, True, key=key)
@@ -824,7 +923,7 @@ def run(ctx):
         ctx.violation("C01 fails on the implementation: " + f["kind"] + ": " + f["why"],
                       {"broken": broken, "failing_input": f, "n_failing": len(fails), "replay_kind": "h_commit",
                        "replay_cmd": "printf '%s\\n' | %s" % (f["case_line"], ctx.bin_path("h_commit"))}, True)
-    elif broken:
+    elif broken and not found_any:
         ctx.violation("C01 no longer shown: " + ("proof" if not proved else "correspondence") + " broken",
                       {"broken": broken, "search": "BOLT-3 judge on %d implementation outputs found no failing input" % n_func}, False)
     ctx.write_evidence(LEVEL)
@@ -852,6 +951,12 @@ def replay(ctx, rep):
     print("output:", lines[:1])
     a = f["case_line"].split()
     nums = [int(x) for x in a[1:]]
+    if a[0] == "ab":
+        cc = tuple(nums[7:14])
+        hs = tuple((nums[15 + 2 * i], nums[16 + 2 * i]) for i in range(nums[14]))
+        why = judge_ab((nums[0], nums[1], nums[2], nums[3], nums[4], nums[5], nums[6], cc, hs), lines[0] if lines else "PANIC")
+        print("judge :", why or "ok")
+        return 1 if why else 0
     if a[0] == "ncs":
         hs = [(bool(nums[11 + 2 * i]), nums[12 + 2 * i]) for i in range(nums[10])]
         want = ref_ncs(nums[0], bool(nums[1]), bool(nums[2]), nums[3], nums[4], nums[5], nums[6], bool(nums[7]), nums[9], hs)
